@@ -133,8 +133,31 @@ ClassDecl == /\ Cur.op \in ClassOps
                   [] Top.phase = 4 -> Silent(Adv(kont))
 
 Simple == /\ Cur.op \notin (LoopOps \cup ClassOps \cup {"if_stmt", "for_stmt", "dowhile_stmt", "break_stmt", "continue_stmt", "return_stmt",
-                                          "try_stmt", "switch_stmt", "case_stmt", "default_stmt", "catch_clause"})
+                                          "try_stmt", "switch_stmt", "case_stmt", "default_stmt", "catch_clause", "goto_stmt"})
           /\ Exec(Cur.id, Adv(kont))
+
+(* goto name: control continues at the label_stmt of that name.  The continuation is rebuilt from the label's position: the block it
+   sits in from the label on, then the rest of each enclosing block after the statement that encloses it.  Supported when every
+   statement that encloses the label is an if (or the label sits in the method body itself); a goto whose label sits inside a loop,
+   a try or a switch ends the walk of this behaviour without a verdict (the jump may start anywhere: out of loops, ifs, tries). *)
+LabelRows(name) == {r \in ToSet(Rows) : r.op = "label_stmt" /\ r.name = name}
+PosIn(b, id) == CHOOSE j \in 1..Len(Children(b)) : Children(b)[j].id = id
+OwnerOf(b) == (CHOOSE r \in ToSet(Rows) : r.id = b /\ r.op = "block_start").parent
+RECURSIVE KontAt(_, _, _)
+KontAt(b, j, fuel) ==
+  LET o == OwnerOf(b) IN
+  IF fuel = 0 THEN << >>
+  ELSE IF o = Case(c).method THEN <<[Frame(b, "plain") EXCEPT !.idx = j]>>
+  ELSE LET orow == RowOf(o) IN
+       IF orow.op # "if_stmt" THEN << >>
+       ELSE LET outer == KontAt(orow.parent, PosIn(orow.parent, o) + 1, fuel - 1) IN
+            IF outer = << >> THEN << >> ELSE Append(outer, [Frame(b, "plain") EXCEPT !.idx = j])
+Goto == /\ Cur.op = "goto_stmt"
+        /\ LET ls == LabelRows(Cur.name)
+               k2 == IF ls = {} THEN << >> ELSE LET l == CHOOSE r \in ls : TRUE IN KontAt(l.parent, PosIn(l.parent, l.id), 8)
+           IN IF k2 = << >>
+              THEN /\ done' = TRUE /\ kont' = << >> /\ UNCHANGED <<c, pc, steps, bad, lastdef>>      \* unsupported target: no verdict for this path
+              ELSE Exec(Cur.id, k2)
 
 If == /\ Cur.op = "if_stmt"
       /\ \E b \in BOOLEAN : Exec(Cur.id, Push(Adv(kont), IF b THEN Cur.then_body ELSE Cur.else_body, "plain"))
@@ -226,7 +249,7 @@ Case_ == /\ Cur.op \in {"case_stmt", "default_stmt"}
                    ELSE Silent(SubSeq(kont, 1, Len(kont) - 1))
 
 Step == /\ kont # << >> /\ ~AtEnd
-        /\ (Simple \/ ClassDecl \/ If \/ While \/ For \/ DoWhile \/ Break \/ Continue \/ Return \/ Try \/ Switch \/ Case_)
+        /\ (Simple \/ Goto \/ ClassDecl \/ If \/ While \/ For \/ DoWhile \/ Break \/ Continue \/ Return \/ Try \/ Switch \/ Case_)
 
 Next == /\ bad = "" /\ ~done /\ steps < MaxSteps
         /\ (Step \/ PopFrame \/ Finish \/ Raise)
